@@ -382,7 +382,9 @@ impl Ord for Iri {
 
 impl Hash for Iri {
 	fn hash<H: hash::Hasher>(&self, state: &mut H) {
-		self.parts().hash(state)
+		// Hash as a reference (optional scheme) so that the `Borrow`
+		// implementations to the reference types keep `Hash` consistent.
+		self.as_iri_ref().hash(state)
 	}
 }
 
